@@ -1,3 +1,4 @@
+#![cfg(all(feature = "builtins", feature = "macros", feature = "multi_template", feature = "adjacent_loop_items", feature = "fuel", feature = "loop_controls"))]
 // Kani harnesses for minijinja/src/value/ops.rs (private kernels).
 // Included from the bottom of that file under cfg(kani).
 use super::*;
@@ -193,7 +194,7 @@ neg_harness!(c08_neg_u64, u64, false, false);
 neg_harness!(c08_neg_i64, i64, false, false);
 neg_harness!(c08_neg_i128, i128, false, false);
 neg_harness!(c08_neg_u128, u128, true, false);
-neg_harness!(c08_neg_u128_known_2p127, u128, true, true); // known=KF-C08-neg-2p127
+neg_harness!(c08_neg_u128_known_2p127, u128, true, true); // known=KF-C08-neg-2p127 props=C08
 // @verif-end
 
 /// Euclid for 64-bit operands: q = a // b and r = a % b are both Ok exactly when b != 0 and equal
